@@ -210,6 +210,32 @@ def c01_opts(rng):
     return ({}, {"depth": [0, 1, 2, 3, 4], "both_modes": True})
 
 
+def c05_opts(rng):
+    return ({}, {"depth": [0, 1, 2], "both_modes": True, "optimize_p": 0.8, "authuser": 0.15, "backends": 0.1})
+
+
+def c06_opts(rng):
+    return ({"nhosts": [0, 1, 2, 3, 5, 8, 12]}, {"depth": [0, 1], "nfilters": [0, 0, 1], "sort": 0.8, "limit": 0.7, "offset": 0.5, "formats": ["json", "wrapped_json"], "colheaders": 0.1})
+
+
+def c07_opts(rng):
+    return ({}, {"depth": [0, 1, 2, 3], "both_modes": True, "index_p": 0.5, "optimize_p": 0.5})
+
+
+def c08_opts(rng):
+    return ({"service_auth": ["loose", "strict"], "group_auth": ["loose", "strict"], "inconsistent_groups": False},
+            {"depth": [0, 1], "nfilters": [0, 0, 1], "authuser": 0.9,
+             "tables": ["hosts", "services", "hostgroups", "servicegroups", "hostsbygroup", "servicesbygroup", "servicesbyhostgroup", "comments", "downtimes", "contacts"]})
+
+
+def c04_opts(rng):
+    return ({"states": True, "nbackends": [1, 2, 3, 4, 5]}, {"depth": [0, 1], "nfilters": [0, 0, 1], "backends": 0.8, "formats": ["json", "wrapped_json", "wrapped_json"],
+            "tables": ["hosts", "services", "hostgroups", "comments", "contacts", "hostsbygroup", "sites", "backends"]})
+
+
+QUERY_ASSUMPTIONS = ["strings inside the declared alphabet (ASCII + Latin-1 letters)", "regular expressions inside the reference subset; others are reported unsupported and not compared",
+                     "numbers are decimals with at most three fraction digits", "backend data satisfy GroupsConsistent (hosts' groups vs hostgroups' members) where the index theorems need it"]
+
 REGISTRY = {
     "C01": {
         "lean_modules": ["C01"],
@@ -218,7 +244,44 @@ REGISTRY = {
                 "(every operator x column type class, empty right-hand sides, nested And/Or/Negate incl. double negation, ref and custom-variable columns), both parse modes; "
                 "a case is distinct by the hash of (dataset, request text, parse mode) and non-trivial when the specification selects at least one row, the implementation returned at least one row and the request carries a filter",
         "correspondence": "Lmd.matchF / Lmd.preFiltered / Lmd.dataQuery vs DataRow.MatchFilter / GetPreFilteredData / gatherResultRows",
-        "assumptions": ["strings inside the declared alphabet (ASCII + Latin-1 letters)", "regular expressions inside the reference subset; others are reported unsupported and not compared",
-                        "numbers are decimals with at most three fraction digits"],
+        "assumptions": QUERY_ASSUMPTIONS,
+    },
+    "C05": {
+        "lean_modules": ["C05"],
+        "run": mk_query_runner(c05_opts, 500, 10000, data=False, stats=True),
+        "rule": "importer-loaded datasets x Stats requests (1-8 counters/aggregates, runs of counters sharing leading terms so that the grouping optimiser fires, nested StatsAnd/StatsOr/StatsNegate, group-by Columns, AuthUser), rows spread over 1-4 backends, both parse modes; "
+                "non-trivial = at least two Stats lines and at least one non-zero value in the specification's answer; distinct by hash of (dataset, request, parse mode)",
+        "correspondence": "Lmd.optimizeStats / countNodes / mergeStats / Acc.final vs optimizeStatsGroups / CountStats / MergeStats / finalStatsApply",
+        "assumptions": QUERY_ASSUMPTIONS,
+    },
+    "C06": {
+        "lean_modules": ["C06"],
+        "run": mk_query_runner(c06_opts, 600, 12000),
+        "rule": "importer-loaded datasets over 1-4 backends x GET requests with 0-3 Sort keys (asc/desc, columns outside Columns, custom-variable keys, the table default order), Limit/Offset in {absent,0,1,small,=total,>total}, json and wrapped_json; "
+                "ties are accepted in any order (tie classes from the sort keys); non-trivial = the specification's window is non-empty and the request has a Sort/Limit/Filter header",
+        "correspondence": "Lmd.dataQuery / gatherRows / cmpKeys vs gatherResultRows / RawResultSet.PostProcessing / Less",
+        "assumptions": QUERY_ASSUMPTIONS,
+    },
+    "C07": {
+        "lean_modules": ["C07"],
+        "run": mk_query_runner(c07_opts, 600, 12000, data=True, stats=True),
+        "rule": "every generated request text is evaluated in both parse modes (ParseDefault, ParseOptimize) by the implementation and the model and compared with the un-optimised specification; "
+                "half of the leaves have an indexable shape (name/host_name/groups/host_groups/primary key with = =~ ~ ~~ >=); regex texts start/end with .*, are wrapped in ^...$, contain heuristic dots and escapes",
+        "correspondence": "Lmd.setRegexFilter / setLowerCaseColumn / preFiltered / optimizeStats vs the Go functions of the same names",
+        "assumptions": QUERY_ASSUMPTIONS,
+    },
+    "C08": {
+        "lean_modules": ["C08"],
+        "run": mk_query_runner(c08_opts, 500, 10000, data=True, stats=True),
+        "rule": "contact graphs generated as relations over hosts/services/groups, 2x2 authorisation settings, AuthUser on ten contact-bearing tables, data and Stats queries with extra filters",
+        "correspondence": "Lmd.checkAuth vs DataRow.checkAuth",
+        "assumptions": QUERY_ASSUMPTIONS,
+    },
+    "C04": {
+        "lean_modules": ["C04"],
+        "run": mk_query_runner(c04_opts, 500, 8000),
+        "rule": "1-5 importer-loaded backends with any subset put into down/pending/broken/warning state x Backends headers (subset, unknown ids, duplicates, empty) x tables x json/wrapped_json",
+        "correspondence": "Lmd.selectBackends / backendAvailable / dataQuery vs ExpandRequestedBackends / prepareResponse / NewResponse",
+        "assumptions": QUERY_ASSUMPTIONS,
     },
 }
